@@ -1725,8 +1725,8 @@ fn reduce_mut(fonts: &[(&'static str, Vec<u8>)], m: &Mutation, api: usize, sel: 
 
 fn search(seed: u64, thorough: bool, st: &mut Stats, fonts: &[(&'static str, Vec<u8>)]) -> BTreeMap<String, Found> {
     let envn = |k: &str, d: u64| std::env::var(k).ok().and_then(|v| v.parse().ok()).unwrap_or(d);
-    let n_bc: u64 = envn("C20_NBC", if thorough { 120_000_000 } else { 12_000_000 });
-    let n_mut: u64 = envn("C20_NMUT", if thorough { 6_000_000 } else { 600_000 });
+    let n_bc: u64 = envn("C20_NBC", if thorough { 100_000_000 } else { 5_000_000 });
+    let n_mut: u64 = envn("C20_NMUT", if thorough { 5_000_000 } else { 300_000 });
     let threads = envn("C20_THREADS", 16);
     let trace = std::env::var("C20_TRACE").is_ok();
     let fonts_ref = fonts;
